@@ -3,7 +3,7 @@ OVL = ['contracts/lz4.ovl']
 # lz4_count's inner byte scan (at most 8 steps, a != b) is unwound, never given a contract; every job that
 # applies the overlay's loop contracts must therefore carry this unwindset
 UW = ['lz4_count.0:9']
-LEMMAS = ['cqv_lemma_' + x for x in ['space', 'ext', 'inv', 'last', 'post', 'bound']]
+LEMMAS = ['cqv_lemma_' + x for x in ['space', 'ext', 'inv', 'last', 'post']]
 L8 = dict(overlays=OVL, harness='harness/C08/lz4.c', extra_sources=[],
           trusted=['harness/C08/lz4.c: memcpy as contract (ranges accessible, whole destination object havocked)',
                    'specs/lz4_spec.h: token/offset field definitions read from the LZ4 block format document'])
@@ -37,15 +37,15 @@ JOBS = [
 ] + [
     dict(name='c09_lz4_lemma_' + nm, prop='C09', entry='h_lemma_' + nm, loop_contracts=False,
          backend=['z3', 'cvc5'], timeout=900, wip=True, functions=[], **L9)
-    for nm in ['space', 'ext', 'inv', 'last', 'post', 'bound']
+    for nm in ['space', 'ext', 'inv', 'last', 'post']
 ] + [
     # C09 + C10: compressor, one contract / one set of loop invariants, obligations split over slices (select=):
     #   every write inside dst, result <= bound, a bound-sized buffer always succeeds (the four internal space
     #   checks are unreachable), end-of-block rules, and the emitted token / length bytes / offset parse back.
 ] + [
     dict(name='c09_lz4_compress_' + nm, props=['C09', 'C10'], entry='h_lz4_compress', enforce='carquet_lz4_compress',
-         replace=['lz4_count', 'carquet_lz4_compress_bound'] + LEMMAS, unwindset=UW, min_loop_obligations=mlo,
-         select=sel, timeout=1800, mem_gb=12, replayer=FZ_C, wip=True, tier='thorough', **L9)
+         replace=['lz4_count'] + LEMMAS, unwindset=UW, min_loop_obligations=mlo,
+         select=sel, timeout=2400, mem_gb=12, backend='cadical', cbmc_flags=['--slice-formula'], replayer=FZ_C, wip=True, tier='thorough', **L9)
     for nm, sel, mlo in [
         ('assigns', r'\.assigns\.', 0),
         ('deref_kind', r'\.pointer_dereference\.(?!.*outside object bounds)', 0),
